@@ -215,9 +215,12 @@ JudgeAlways(sc, d1, w0, w1, r) ==
   \* (a sleep/wake call that failed half-way may or may not have delivered its command: the controller's
   \*  state is then unknown to the driver until the next successful sleep/wake)
   \o Chk(d1.slpUnknown \/ w1.ctl.sleep = d1.sleeping, r, {"C13"}, "controller sleep state differs from is_sleeping()")
+  \* (the picture shown is what the controller scans out under its address mode: orientation bits for the geometry,
+  \*  colour-order and refresh bits for the rest -- C15 "shows the same picture" on the scenarios made for it)
   \o Chk(r.obs.rot = d1.orient.rot /\ r.obs.mir = d1.orient.mir /\ r.obs.size = LogicalSize(sc.cfg, d1.orient), r,
-         {"C10"}, "reported orientation/size differs from the last orientation set")
-  \o Chk(w1.ctl.madctl = MadctlOf(sc.cfg.bgr, d1.orient, sc.cfg.refv, sc.cfg.refh), r, {"C10"},
+         {"C10"} \cup (IF sc.tag = "orient-drawn" THEN {"C15"} ELSE {}), "reported orientation/size differs from the last orientation set")
+  \o Chk(w1.ctl.madctl = MadctlOf(sc.cfg.bgr, d1.orient, sc.cfg.refv, sc.cfg.refh), r,
+         {"C10"} \cup (IF sc.tag = "orient-drawn" THEN {"C15"} ELSE {}),
          "controller address mode differs from the last orientation set")
   \o Chk(w1.wflags \cap {"sampled_unknown", "dc_unknown"} = {}, r,
          (IF sc.cfg.iface = "spi" THEN {"C06"} ELSE {"C07"}) \cup (IF sc.tag = "colour" THEN {"C05"} ELSE {}),
